@@ -62,6 +62,12 @@ pub struct Counters {
     pub notifications: u64,
     pub step_downs: u64,
     pub replayed_applies: u64,
+    pub joins_ok: u64,
+    pub joins_rejected: u64,
+    pub promotions: u64,
+    pub view_pairs_checked: u64,
+    pub purge_checks: u64,
+    pub client_timeouts: u64,
 }
 
 pub struct Online {
@@ -121,6 +127,21 @@ pub struct Online {
     snapshot_content: HashMap<(u64, u64), u64>,
     /// (node, inc) -> (boundary, content upto) of an installed snapshot whose content was ahead
     content_ahead: HashMap<(u32, u32), (u64, u64)>,
+    /// nodes that are up right now
+    pub live: BTreeSet<u32>,
+    /// (joiner, leader) -> was the joiner already a member of the leader's view when it asked
+    join_req_existing: HashMap<(u32, u32), bool>,
+    /// nodes that restarted at least once: node -> (restarts, view just before the last stop/crash)
+    pub restarted: HashMap<u32, (u32, Option<(BTreeSet<u32>, BTreeSet<u32>)>)>,
+    /// C30: a request left unanswered for this long (virtual ms) while its node stayed up is a
+    /// violation (None = bound not applicable in this scenario)
+    pub reply_bound_ms: Option<u64>,
+    /// highest purge boundary already reported per (node, inc)
+    purge_seen: HashMap<(u32, u32), u64>,
+    /// index -> command as first applied anywhere (the agreed applied sequence)
+    applied_cmds: BTreeMap<u64, d_engine_core::Command>,
+    pub final_state_checks: u64,
+    pub checkpoints: u64,
 }
 
 pub fn maj(n: usize) -> usize {
@@ -187,7 +208,20 @@ impl Online {
             lease: super::monitor2::LeaseMon::default(),
             snapshot_content: HashMap::new(),
             content_ahead: HashMap::new(),
+            live: BTreeSet::new(),
+            join_req_existing: HashMap::new(),
+            restarted: HashMap::new(),
+            reply_bound_ms: None,
+            purge_seen: HashMap::new(),
+            applied_cmds: BTreeMap::new(),
+            final_state_checks: 0,
+            checkpoints: 0,
         }
+    }
+
+    /// report a finding from scenario-level (end-of-run) oracles
+    pub fn report(&mut self, t: u64, property: &'static str, signature: impl Into<String>, detail: Value) {
+        self.find(t, property, signature, detail)
     }
 
     fn find(&mut self, t: u64, property: &'static str, signature: impl Into<String>, detail: Value) {
@@ -239,13 +273,19 @@ impl Online {
         match ev {
             Ev::Start { node, inc, .. } => {
                 self.incarnation.insert(*node, *inc);
+                self.live.insert(*node);
                 if *inc > 0 {
                     self.counters.restarts += 1;
+                    self.restarted.entry(*node).or_insert((0, None)).0 += 1;
                 }
             }
             Ev::Crash { node, .. } | Ev::Stop { node, .. } => {
                 self.crashed_at.entry(*node).or_default().push(t);
                 self.roles.remove(node);
+                self.live.remove(node);
+                let before = self.view.get(node).cloned();
+                let e = self.restarted.entry(*node).or_insert((0, None));
+                e.1 = before;
                 if matches!(ev, Ev::Crash { .. }) {
                     self.counters.crashes += 1;
                     self.sig_trace.push(0xC000 + *node as u64);
@@ -257,11 +297,28 @@ impl Online {
                     (voters.iter().cloned().collect(), learners.iter().cloned().collect()),
                 );
                 self.counters.membership_changes += 1;
+                self.check_view_pairs(t, *node);
+            }
+            Ev::JoinReq { from, to } => {
+                let existing = self.view.get(to).is_some_and(|(v, l)| v.contains(from) || l.contains(from));
+                self.join_req_existing.insert((*from, *to), existing);
+            }
+            Ev::JoinReply { node, leader, success } => {
+                if *success {
+                    self.counters.joins_ok += 1;
+                    self.on_join_success(t, *node, *leader);
+                } else {
+                    self.counters.joins_rejected += 1;
+                }
             }
             Ev::RoleChange { node, from, to, term } => {
                 self.roles.insert(*node, (*to, *term));
                 if *from == LEADER {
                     self.counters.step_downs += 1;
+                }
+                if *from == LEARNER && *to != LEARNER {
+                    self.counters.promotions += 1;
+                    self.on_learner_promoted(t, *node, *to);
                 }
                 if *to == LEADER {
                     self.counters.elections_won += 1;
@@ -465,6 +522,7 @@ impl Online {
                         }
                         None => {
                             self.applied.insert(*index, (h, *ok, *node));
+                            self.applied_cmds.insert(*index, cmd.clone());
                         }
                     }
                 }
@@ -522,7 +580,13 @@ impl Online {
                         self.on_write_ok(t, *op, *succeeded);
                     }
                     ClientResult::Rejected { .. } => self.counters.rejected += 1,
-                    ClientResult::Indeterminate { .. } => self.counters.indeterminate += 1,
+                    ClientResult::Indeterminate { why } => {
+                        self.counters.indeterminate += 1;
+                        if why == "client timeout" {
+                            self.counters.client_timeouts += 1;
+                            self.on_client_timeout(t, *op);
+                        }
+                    }
                     ClientResult::Dropped => {
                         // a crashed / stopped node takes its connections down with it: that is
                         // a broken connection, not a silently dropped request
@@ -786,6 +850,237 @@ impl Online {
                     "C29",
                     "cas-response-differs-from-applied-outcome",
                     json!({"op": op, "leader": node, "index": idx, "applied_ok": ok, "responded": succeeded}),
+                );
+            }
+        }
+    }
+
+    /// C26: two nodes that are voters in their own committed view must not hold views that admit
+    /// two disjoint majorities.
+    fn check_view_pairs(&mut self, t: u64, node: u32) {
+        let Some((v1, _)) = self.view.get(&node).cloned() else { return };
+        if !v1.contains(&node) || !self.live.contains(&node) {
+            return;
+        }
+        let others: Vec<u32> = self.live.iter().cloned().filter(|m| *m != node).collect();
+        for m in others {
+            let Some((v2, _)) = self.view.get(&m).cloned() else { continue };
+            if !v2.contains(&m) {
+                continue;
+            }
+            self.counters.view_pairs_checked += 1;
+            let union: BTreeSet<u32> = v1.union(&v2).cloned().collect();
+            if maj(v1.len()) + maj(v2.len()) <= union.len() {
+                let (a, b) = if v1.len() <= v2.len() { (v1.len(), v2.len()) } else { (v2.len(), v1.len()) };
+                self.find(
+                    t,
+                    "C26",
+                    format!("disjoint-quorums-possible:{a}-voter-view-vs-{b}-voter-view"),
+                    json!({"node_a": node, "voters_a": v1, "node_b": m, "voters_b": v2, "union": union,
+                           "majority_a": maj(v1.len()), "majority_b": maj(v2.len())}),
+                );
+            }
+        }
+    }
+
+    /// C27: a successful join reply only after AddNode(node) is committed on the answering leader,
+    /// and never for a node that already was a member when it asked.
+    fn on_join_success(&mut self, t: u64, node: u32, leader: u32) {
+        if self.join_req_existing.get(&(node, leader)).cloned().unwrap_or(false) {
+            self.find(t, "C27", "join-of-existing-member-answered-success", json!({"node": node, "leader": leader, "leader_view": self.view.get(&leader)}));
+        }
+        let commit = self.commit_index.get(&leader).cloned().unwrap_or(0);
+        let Some(ep) = self.net.as_ref().and_then(|n| n.endpoint(leader)) else { return };
+        let (first, last) = (ep.log.first().max(1), ep.log.last());
+        let mut found_at: Option<u64> = None;
+        let mut i = last;
+        let mut steps = 0;
+        while i >= first && steps < 20_000 {
+            if let Some((kind, ids)) = ep.log.conf_change(i)
+                && kind == "add"
+                && ids.contains(&node)
+            {
+                found_at = Some(i);
+                break;
+            }
+            if i == 0 {
+                break;
+            }
+            i -= 1;
+            steps += 1;
+        }
+        match found_at {
+            Some(idx) if idx <= commit => {}
+            Some(idx) => {
+                self.find(t, "C27", "join-success-before-addnode-committed", json!({"node": node, "leader": leader, "addnode_index": idx, "leader_commit": commit}));
+            }
+            None => {
+                // entry may have been compacted already (first > 1): only report when the whole
+                // log is visible
+                if first <= 1 {
+                    self.find(t, "C27", "join-success-without-addnode-entry", json!({"node": node, "leader": leader, "log": [first, last]}));
+                }
+            }
+        }
+    }
+
+    /// C27: learner -> voter only through a committed promotion that names the node.
+    fn on_learner_promoted(&mut self, t: u64, node: u32, to: i32) {
+        let commit = self.commit_index.get(&node).cloned().unwrap_or(0);
+        let Some(ep) = self.net.as_ref().and_then(|n| n.endpoint(node)) else { return };
+        let (first, last) = (ep.log.first().max(1), ep.log.last());
+        let mut found: Option<u64> = None;
+        let mut i = last;
+        let mut steps = 0;
+        while i >= first && steps < 20_000 {
+            if let Some((kind, ids)) = ep.log.conf_change(i)
+                && kind == "promote"
+                && ids.contains(&node)
+            {
+                found = Some(i);
+                break;
+            }
+            if i == 0 {
+                break;
+            }
+            i -= 1;
+            steps += 1;
+        }
+        let committed_globally = found.is_some_and(|i| self.committed.contains_key(&i));
+        match found {
+            Some(idx) if idx <= commit || committed_globally => {}
+            Some(idx) => {
+                self.find(t, "C27", "learner-became-voter-before-promotion-committed", json!({"node": node, "to_role": to, "promotion_index": idx, "node_commit": commit}));
+            }
+            None => {
+                if first <= 1 {
+                    self.find(t, "C27", "learner-became-voter-without-promotion-entry", json!({"node": node, "to_role": to, "log": [first, last], "node_commit": commit}));
+                }
+            }
+        }
+    }
+
+    /// C30: the client gave up waiting although the node it asked stayed up the whole time.
+    fn on_client_timeout(&mut self, t: u64, op: u64) {
+        let Some(bound) = self.reply_bound_ms else { return };
+        let Some((c, node, what, it)) = self.ops.get(&op).cloned() else { return };
+        if t.saturating_sub(it) < bound {
+            return;
+        }
+        // only requests that go through the node's command channel carry a server-side deadline
+        let via_cmd = match &what {
+            ClientOp::Read { path, .. } => *path == "cmd",
+            ClientOp::Put { .. } | ClientOp::Del { .. } | ClientOp::Cas { .. } | ClientOp::Scan { .. } => true,
+            _ => false,
+        };
+        if !via_cmd || !self.live.contains(&node) || self.restarted_between(node, it, t) {
+            return;
+        }
+        let kind = match &what {
+            ClientOp::Read { .. } => "read",
+            ClientOp::Scan { .. } => "scan",
+            _ => "write",
+        };
+        self.find(
+            t,
+            "C30",
+            format!("no-reply-within-deadline[{kind}]"),
+            json!({"op": op, "client": c, "node": node, "request": super::record::op_json(&what), "invoked_at": it, "waited_ms": t - it,
+                   "node_role_now": self.roles.get(&node)}),
+        );
+    }
+
+    /// C33 (a)/(b): called at checkpoints with the node's purge boundary (first index - 1) and
+    /// the last included index of the snapshot the node's state machine reports holding.
+    pub fn purge_check(&mut self, t: u64, node: u32, inc: u32, boundary: u64, snapshot_upto: Option<u64>) {
+        if boundary == 0 {
+            return;
+        }
+        self.counters.purge_checks += 1;
+        let seen = self.purge_seen.get(&(node, inc)).cloned().unwrap_or(0);
+        if boundary <= seen {
+            return;
+        }
+        self.purge_seen.insert((node, inc), boundary);
+        let max_committed = self.committed.keys().next_back().cloned().unwrap_or(0);
+        if boundary > max_committed {
+            self.find(t, "C33", "purged-entries-that-are-not-committed", json!({"node": node, "inc": inc, "purged_upto": boundary, "highest_committed_index": max_committed}));
+        }
+        match snapshot_upto {
+            Some(s) if s >= boundary => {}
+            other => {
+                let sig = if inc > 0 && other.is_none() { "log-purged-but-no-snapshot-held:after-restart" } else if other.is_none() { "log-purged-but-no-snapshot-held" } else { "log-purged-beyond-held-snapshot" };
+                self.find(t, "C33", sig, json!({"node": node, "inc": inc, "purged_upto": boundary, "snapshot_last_included": other}));
+            }
+        }
+    }
+
+    /// End-of-run (quiescent) state oracle: the node's key-value content must equal the reference
+    /// model folded once, in index order, over the agreed applied sequence up to the node's own
+    /// `last_applied`. Decides C16 for nodes that installed a snapshot in this incarnation, C15 for
+    /// nodes that restarted, C06 otherwise.
+    pub fn final_state_check(&mut self, t: u64, node: u32, inc: u32, last_applied: u64, content: &[(Vec<u8>, Option<Vec<u8>>)]) {
+        let key = (node, inc);
+        if self.tainted.contains(&key) {
+            return;
+        }
+        self.final_state_checks += 1;
+        let mut model = crate::model::KvRef::default();
+        for (_, c) in self.applied_cmds.range(..=last_applied) {
+            model.apply(c);
+        }
+        let mut diffs = Vec::new();
+        for (k, v) in content {
+            let exp = model.get(k).cloned();
+            if &exp != v {
+                diffs.push(json!({"key": show_bytes(k), "node_has": v.as_ref().map(|b| show_bytes(b)), "exactly_once_reference": exp.as_ref().map(|b| show_bytes(b))}));
+            }
+        }
+        if diffs.is_empty() {
+            return;
+        }
+        let installed = self.installed_upto.get(&key).cloned();
+        let (prop, sig): (&'static str, String) = if installed.is_some() {
+            let ahead = self.content_ahead.contains_key(&key);
+            ("C16", if ahead { "state-after-snapshot-install-and-replay-differs:snapshot-content-ahead-of-boundary".into() } else { "state-after-snapshot-install-and-replay-differs".into() })
+        } else if inc > 0 {
+            ("C15", "state-after-restart-differs-from-exactly-once-state".into())
+        } else {
+            ("C06", "final-state-differs-from-applied-sequence".into())
+        };
+        self.find(t, prop, sig, json!({"node": node, "inc": inc, "last_applied": last_applied, "installed_snapshot_upto": installed, "differences": diffs}));
+    }
+
+    /// C28 (quiescent form): after heal + quiet every restarted node's membership view equals
+    /// the view of the nodes that never restarted / of the leader.
+    pub fn finish_membership(&mut self, t: u64, leader: Option<u32>, initial_voters: &BTreeSet<u32>) {
+        let Some(l) = leader else { return };
+        let Some(reference) = self.view.get(&l).cloned() else { return };
+        let live: Vec<u32> = self.live.iter().cloned().collect();
+        // the cluster must be quiescent: every never-restarted live node agrees with the leader
+        for n in &live {
+            if !self.restarted.get(n).is_some_and(|r| r.0 > 0)
+                && self.view.get(n).is_some_and(|v| *v != reference)
+            {
+                return;
+            }
+        }
+        for n in live {
+            let Some((cnt, before)) = self.restarted.get(&n).cloned() else { continue };
+            if cnt == 0 {
+                continue;
+            }
+            let Some(mine) = self.view.get(&n).cloned() else { continue };
+            if mine != reference {
+                let fell_back = mine.0 == *initial_voters && reference.0 != *initial_voters;
+                let sig = if fell_back { "view-after-restart-fell-back-to-initial-configuration" } else { "view-after-restart-differs-from-committed-configuration" };
+                self.find(
+                    t,
+                    "C28",
+                    sig,
+                    json!({"node": n, "restarts": cnt, "view_now": {"voters": mine.0, "learners": mine.1},
+                           "view_before_last_restart": before.map(|b| json!({"voters": b.0, "learners": b.1})),
+                           "leader": l, "leader_view": {"voters": reference.0, "learners": reference.1}}),
                 );
             }
         }
